@@ -276,7 +276,7 @@ REG = {
          "n unit vectors with M v = lambda v and each is parallel to the planted eigenvector. The same acceptance (without planted vectors) is applied to random symmetric matrices "
          "Q diag(lambda) Q^T with ratios 0.1..0.8 of either sign, and QR_Decomposition is checked on random non-singular matrices of sizes 1..7 with condition numbers up to 1e6 "
          "(Q orthogonal, R upper triangular exactly, QR = M).",
-    note="Spectrum within 1e-10 ||M||, residuals within 1e-9 ||M||: these reflect the library's own iteration thresholds rather than rounding. The Jacobi reference of the statement is "
+    note="Spectrum within 1e-10 ||M||, residuals within 1e-11 ||M||: these reflect the library's own iteration thresholds rather than rounding. The Jacobi reference of the statement is "
          "replaced by planted spectra (the truth is an input). Determinant = product of eigenvalues is covered through the planted spectrum only.",
     technique="exact integer TLA+ model of symmetric matrices with planted eigen-structure (TLC exhaustive over block patterns and permutations), replay through Eigenvalues/Eigensystem in child processes with time limits, trace validation of residuals and termination"),
  "C07": dict(
